@@ -151,12 +151,15 @@ def parse_libtest(text, tables):
 
 def parse_json(text, tables):
     facts = []
-    info = {"wellformed": True, "feature_objects": 0}
+    info = {"wellformed": True, "feature_objects": 0, "dup_features": 0}
     try:
         doc = json.loads(text) if text.strip() else []
     except Exception:
-        return facts, {"wellformed": False, "feature_objects": 0}
+        return facts, {"wellformed": False, "feature_objects": 0, "dup_features": 0}
     info["feature_objects"] = len(doc)
+    # a feature that has a source path (uri) is one object of the document
+    uris = [f.get("uri") for f in doc if f.get("uri") and f.get("keyword")]
+    info["dup_features"] = len(uris) - len(set(uris))
     st = {"passed": "passed", "skipped": "skipped", "failed": "failed", "undefined": "failed",
           "ambiguous": "failed"}
     for f in doc:
